@@ -132,4 +132,33 @@ def Sys.settled (s : Sys W Q A U K) : Bool := s.threads.all fun t => !t.midUpdat
 def Sys.cacheCurrent (E : Env W Q A U K) (s : Sys W Q A U K) : Prop :=
   ∀ k a, s.cache k = some a → ∀ q, E.key q = k → a = E.ans s.inner q
 
+/-- Several handles of one graph. `shared`: every handle uses the same memoizer (what Store.Graph hands
+    out since ec2bfc6); otherwise each handle has its own, and an update only resets the one it goes through. -/
+structure Multi (W K A : Type) where
+  inner : W
+  caches : Nat → K → Option A
+
+inductive HOp (Q U : Type) where
+  | read (handle : Nat) (q : Q)
+  | write (handle : Nat) (u : U)
+
+
+def slot (shared : Bool) (h : Nat) : Nat := if shared then 0 else h
+
+def Multi.run (shared : Bool) (E : Env W Q A U K) (s : Multi W K A) : List (HOp Q U) → List A
+  | [] => []
+  | .read h q :: ops =>
+    match s.caches (slot shared h) (E.key q) with
+    | some a => a :: Multi.run shared E s ops
+    | none =>
+      let a := E.ans s.inner q
+      a :: Multi.run shared E { s with caches := fun i k => if i = slot shared h ∧ k = E.key q then some a else s.caches i k } ops
+  | .write h u :: ops =>
+    Multi.run shared E { inner := E.upd s.inner u, caches := fun i k => if i = slot shared h then none else s.caches i k } ops
+
+def directH (E : Env W Q A U K) (w : W) : List (HOp Q U) → List A
+  | [] => []
+  | .read _ q :: ops => E.ans w q :: directH E w ops
+  | .write _ u :: ops => directH E (E.upd w u) ops
+
 end BW.Model.Memo
